@@ -230,6 +230,33 @@ def check_scorer(ctx, pkg, name, width, inner, mode):
             return c.t[0] == "cmp" and c.t[1] in ("!=0", "==0") and any(a.kind == "app" and a.args[0] == "freedim" for a in atoms_of(c.t[2]).values())
 
         # ndim: paths to the kernel must have ndim == 2 established (possibly after the 1-D reshape)
+        # every path to the kernel has established that the argument AS GIVEN is a vector or a matrix: a helper that
+        # squeezes / reshapes an array of higher rank into a matrix lets a 3-D cuts array be scored silently
+        def rank_of_original(p):
+            """the set of ranks of the original cuts array that the path facts admit, out of {1, 2, 3 (= more)}"""
+            ranks = {1, 2, 3}
+            for c, v in p.facts:
+                if c.t[0] != "cmp":
+                    continue
+                tops = atoms_of(c.t[2], deep=False)
+                ats = [a for a in tops.values() if a.kind == "app" and a.args[0] == "ndim" and nf_equal(lift(a.args[1]), cuts_s)]
+                if len(ats) != 1 or len(tops) != 1:
+                    continue
+                keep = set()
+                for r in ranks:
+                    val = subst(c.t[2], {ats[0].key: NF.const(r)}).as_const()
+                    if val is None:
+                        keep.add(r)
+                        continue
+                    holds = {"<0": val < 0, "<=0": val <= 0, "==0": val == 0, "!=0": val != 0}[c.t[1]]
+                    # rank "3" stands for every rank >= 3: a strict / non-strict bound at 3 behaves the same for all of them
+                    if holds == v:
+                        keep.add(r)
+                ranks = keep
+            return ranks
+
+        too_deep = [p for p in reach if 3 in rank_of_original(p)]
+        ctx.check(not too_deep, "C13.c CHECK-COMPLETE", f"{name}|{mode}|rank-of-argument" if mode != "shape-unknown" else f"{name}|rank-of-argument", raise_loc(too_deep[0], loc) if too_deep else loc, "on every path to the kernel the cuts argument as given has at most two dimensions (a 3-D array is rejected, not squeezed or reshaped into a matrix)", found=(_facts(too_deep[0]) if too_deep else "rank in {1, 2} established on every path"), expected="ValueError for more than two dimensions")
         rej_nd = [p for p in paths if p.outcome == "raise" and any(nd(c) for c, v in both_polarities(p.facts)) and not any(dt(c) or (c.t[0] == "not" and dt(c.t[1])) or wd(c) for c, v in both_polarities(p.facts))]
         ctx.check(bool(rej_nd) and all(p.exc.exc_name == "ValueError" for p in rej_nd), "C13.c CHECK-COMPLETE", f"{name}|ndim", raise_loc(rej_nd[0], loc) if rej_nd else loc, "arrays that are not 2-D (after a 1-D row vector is reshaped) are rejected with ValueError", found=f"{len(rej_nd)} rejecting paths")
         def dtype_fact(c, v):
